@@ -444,8 +444,12 @@ pub fn gen_meta(rng: &mut Rng, depth: usize, width: usize) -> Meta {
 /// Random valid UTF-8 of at most `max_bytes` bytes (mix of 1..4-byte scalars,
 /// including characters that need JSON escaping).
 pub fn gen_utf8(rng: &mut Rng, max_bytes: usize) -> String {
-	const POOL: &[char] = &['a', 'Z', '0', ' ', '"', '\\', '/', '\n', '\t', '\u{7f}', '\u{1}', '}', '{', 'U', 'é', 'ß', 'あ', '漢', '\u{ffff}', '😀', '\u{10ffff}', '\u{2028}'];
+	const POOL: &[char] = &['a', 'Z', '0', ' ', '"', '\\', '/', '\n', '\t', '\u{7f}', '\u{1}', '}', '{', 'U', 'é', 'ß', 'あ', '漢', '\u{ffff}', '😀', '\u{10ffff}', '\u{2028}', '\u{feff}', '\u{fffe}', '\u{fffd}', '\u{d7ff}', '\u{e000}', '\u{80}', '\u{7ff}', '\u{800}', '\u{10000}', '\u{200b}', '\0', '２', '年'];
 	let mut s = String::new();
+	// characters that decoders treat specially only at the very start of a text (byte-order marks)
+	if max_bytes >= 3 && rng.chance(1, 16) {
+		s.push(*rng.pick(&['\u{feff}', '\u{fffe}', '\u{fffd}']));
+	}
 	loop {
 		let c = if rng.chance(1, 4) { *rng.pick(POOL) } else { (b' ' + rng.below(95) as u8) as char };
 		if s.len() + c.len_utf8() > max_bytes {
